@@ -171,7 +171,7 @@ def run_correspondence(chk: common.Check, rng, n: int):
             real.append((kind, cfg, h, (r, ell, p), real_call(b, res_list, r, ell, p)))
         key = ("module" if kind != "fresh" else "fresh", cfg[0], cfg[1], any(x[1] is None for x in h))
         shape_count[str(key)] = shape_count.get(str(key), 0) + 1
-    out = common.lean_run("Ampverif/Model/C12Builder.lean", "\n".join(lines) + "\n")
+    out = common.lean_run("Ampverif/Drivers/C12Builder.lean", "\n".join(lines) + "\n")
     model = [ln for ln in out.split("\n") if ln.strip()]
     chk.info("history_correspondence", {"histories": len(hists), "calls": len(real), "input_distribution": shape_count})
     if len(model) != len(real):
